@@ -194,8 +194,9 @@ def run(chk, replay=None):
     if replay and replay.get("case"):
         case = replay["case"]
         jobs = [j for j in jobs if j["model"] == case.get("model")] or [dict(jobs[0], model=case.get("model", jobs[0]["model"]))]
-        jobs[0]["graph_depth"] = 3 if len(case.get("history", [])) > 2 else 2
-        jobs[0]["numeric"] = NUMERIC_THOROUGH
+        nren = sum(1 for h in case.get("history", []) if h and h[0] == "rename_symbols")
+        jobs[0]["graph_depth"] = max(1, min(2 if jobs[0]["model"].startswith("dpd") else 3, nren))
+        jobs = jobs[:1]
 
     def worker_then_trace(job):
         out = run_worker(job)
